@@ -212,6 +212,9 @@ pub mod source;
 #[cfg_attr(not(feature = "hot-reloading"), path = "hot_reloading/disabled.rs")]
 pub mod hot_reloading;
 
+#[cfg(assets_manager_verif)]
+pub mod verif;
+
 mod utils;
 #[cfg(feature = "utils")]
 #[cfg_attr(docsrs, doc(cfg(feature = "utils")))]
